@@ -133,6 +133,24 @@ class C02(Prop):
         src = "rule r { strings: $a = { %s } condition: $a or true }" % _hir.hex_text(toks)
         return {"toks": toks, "src": src, "inputs": inputs}
 
+    def gen_long_jump(self, rng):
+        """fixed (and nearly fixed) jumps around 255/256/257/510/511/512 and up to ~1100 on one side of a literal
+        run that otherwise holds only bytes, masks and ??: the input must be as long as the jump."""
+        j = rng.choice([250, 254, 255, 256, 257, 300, 510, 511, 512, 513, 767, 768, 1023, 1024, 1100, rng.range(250, 1100)])
+        lit = [["b", rng.choice([0xAA, 0xBB, 0xCC, 0xDD, 0x41, 0x62])] for _ in range(4)]
+        other = rng.choice([[["b", 0xEE]], [["m", 0xE, "R"]], [["b", 0xEE], ["m", 0, "A"], ["b", 0x31]], [["nm", 0x3, "L"], ["b", 0xEE]]])
+        jump = ["j", j, j] if rng.chance(3, 4) else ["j", j, j + rng.range(1, 2)]
+        toks = (lit + [jump] + other) if rng.chance(1, 2) else (other + [jump] + lit)
+        # build members by hand: left part, filler of exactly j (and j-1 / j+1 as near members), right part
+        left = _hir.hex_member(rng, toks[:toks.index(jump)], [0x10, 0x20])
+        right = _hir.hex_member(rng, toks[toks.index(jump) + 1:], [0x10, 0x20])
+        inputs = []
+        for fill in ([j] if rng.chance(1, 2) else [j, rng.choice([j - 1, j + 1, 255, j - 256 if j > 300 else j + 2])]):
+            filler = bytes([0x00]) * fill
+            inputs.append((bytes([0x00]) * rng.range(0, 2) + left + filler + right + bytes([0x00]) * rng.range(0, 2)).hex())
+        src = "rule r { strings: $a = { %s } condition: $a or true }" % _hir.hex_text(toks)
+        return {"toks": toks, "src": src, "inputs": inputs}
+
     def gen_case(self, rng):
         if rng.chance(1, 8):
             return self.gen_shared_prefix(rng)
@@ -144,7 +162,9 @@ class C02(Prop):
         return {"toks": toks, "src": src, "inputs": inputs}
 
     def generate(self, ctx, rng, n):
-        return [self.gen_case(rng.fork("c%d" % i)) for i in range(n)]
+        nlong = 16 if n < 2000 else 60      # long inputs are costly under vm_compute: a bounded number per run
+        return ([self.gen_long_jump(rng.fork("lj%d" % i)) for i in range(nlong)]
+                + [self.gen_case(rng.fork("c%d" % i)) for i in range(n)])
 
     def budget(self, tier):
         return 900 if tier == "quick" else 8000
@@ -194,7 +214,9 @@ class C02(Prop):
                 return (False, False, 0)
             outs.append(_hir.g_matches(ms))
         ins = glist([gbytes(bytes.fromhex(h)) for h in case["inputs"]])
-        return "C02_case %s %s %s %s" % (_hir.g_tokens(case["toks"]), _hir.g_sdesc(out["desc"][0]), ins, glist(outs))
+        kr, kf = _hir.half_codes(out["desc"][0]["kind"])
+        return "let d := %s in with_kinds (kinds_ok d %d %d) (C02_case %s d %s %s)" % (
+            _hir.g_sdesc(out["desc"][0]), kr, kf, _hir.g_tokens(case["toks"]), ins, glist(outs))
 
     def nontrivial(self, case, out):
         if not isinstance(out, dict) or "scans" not in out:
